@@ -192,6 +192,8 @@ def build(ctx):
 
     # (3) call sites: the reason argument is never NULL
     _reason_call_sites(ctx)
+    from contracts import sqlspec as _SP
+    _SP.engine_obligations(ctx, ex)
     ctx.assume('each procedure call is atomic with respect to the others (serialisable isolation); integer widths sufficient')
     ctx.assume('table invariant Inv (rollup_time <= end_time when both set) holds for rows created by add_attempt (all three NULL) and is re-established by obligation (f) for every writer')
     ctx.assume('call-site facts taken as preconditions (checked only syntactically): time arguments of unschedule_job, deactivate_instance, mark_job_started, mark_job_creating and billing_update are non-NULL (time_msecs() / worker-reported); mark_job_complete receives end_time = NULL only from mark_job_errored, for an attempt with no recorded times')
